@@ -1,8 +1,9 @@
 (** C20 — Qremote target choice: MX order, each address once, never itself.
     Only statements here; proofs live in Proofs/Mx*Proofs.v. *)
 From Coq Require Import List NArith Bool Sorting.Permutation Sorting.Sorted.
-From Qv Require Import Common.Bytes Gen.GenMx Model.Mx Model.MxRoute Spec.MxSpec Spec.MxRouteSpec
-  Proofs.MxSortProofs Proofs.MxConnProofs Proofs.MxFilterProofs Proofs.MxRouteProofs.
+From Qv Require Import Common.Bytes Gen.GenMx Model.Mx Model.MxRoute Model.MxDns
+  Spec.MxSpec Spec.MxRouteSpec Spec.MxDnsSpec
+  Proofs.MxSortProofs Proofs.MxConnProofs Proofs.MxFilterProofs Proofs.MxRouteProofs Proofs.MxDnsProofs.
 Import ListNotations.
 
 (** sortmx (with fixes/C20-sortmx-v6first.diff applied): for every non-empty list of MX entries
@@ -98,6 +99,46 @@ Theorem C20_route_empty_relay : forall cfg,
                   parse_route_params cfg None (Some p) = Route None v).
 Proof. intros cfg. split; [apply no_relay_no_mx|apply no_relay_keeps_port]. Qed.
 Print Assumptions C20_route_empty_relay.
+
+(** ask_dnsmx() over an arbitrary resolver (which names have addresses, which fail how, which MX
+    records with 16-bit preferences exist): when it answers with a list, the list is not empty and
+    every entry has an address and a priority tryconn counts as "not yet tried" (<= 65536; the
+    implicit MX gets exactly 65536); with MX records present the list is exactly the records whose
+    names have addresses, each with its own preference and all its addresses. *)
+Theorem C20_dnsmx : forall tab flag recs name l,
+  prio16 recs -> ask_dnsmx tab flag recs name = MxList l ->
+  l <> [] /\ Forall fresh l /\ (flag = 0%N -> recs <> [] -> l = dnsmx_list_ref tab recs).
+Proof.
+  intros tab flag recs name l Hp H. destruct (ask_dnsmx_fresh tab flag recs name l Hp H) as [H1 H2].
+  split; [exact H1|]. split; [exact H2|]. intros -> Hne. eapply ask_dnsmx_records; eassumption.
+Qed.
+Print Assumptions C20_dnsmx.
+
+(** getmxlist() (target not an address literal): routes first — a route with a relay yields the
+    relay's addresses and DNS MX is not consulted, a route without relay or no route yields the
+    DNS answer, the port is always the route's; and whatever list comes out satisfies the
+    preconditions of the sort and connect theorems. *)
+Theorem C20_getmxlist : forall cfg tab flag recs (remhost : bytes),
+  length remhost <= 254 -> prio16 recs ->
+  getmxlist cfg tab flag recs remhost = Ok (getmxlist_ref cfg tab flag recs remhost)
+  /\ (forall l port, getmxlist_ref cfg tab flag recs remhost = GList l port -> l <> [] /\ Forall fresh l).
+Proof.
+  intros cfg tab flag recs remhost Hl Hp. split; [apply getmxlist_spec; exact Hl|].
+  intros l port H. eapply getmxlist_ref_fresh; eassumption.
+Qed.
+Print Assumptions C20_getmxlist.
+
+(** the whole path getmxlist(); filter (port 25); sortmx; tryconn...: it never crashes and ends in
+    [main_ok]: Qremote gives up exactly when the route is broken or DNS has no usable answer, reports
+    "all point back to me" exactly when filtering on port 25 leaves nothing, and otherwise tries the
+    sorted (filtered) list once each in order on the route's port, never a local address on port 25,
+    -ENOENT only after all. *)
+Theorem C20_main : forall cfg tab flag recs (remhost : bytes) gia ifs cs0 oracle n,
+  length remhost <= 254 -> prio16 recs ->
+  exists r, qremote_main cfg tab flag recs remhost gia ifs cs0 oracle n = Ok r
+            /\ main_ok cfg tab flag recs remhost gia ifs oracle n r.
+Proof. exact qremote_main_correct. Qed.
+Print Assumptions C20_main.
 
 (** the port on which main() filters the local addresses is the SMTP port, which is also the
     default of conn.c and of smtproute(); the marks of tryconn are ordered as the proofs need
